@@ -37,10 +37,10 @@ func init() {
 }
 
 func c17Run(x *core.Ctx) {
-	n := 64 // x16 = 1k schemas x 12 arrangements
+	n := 150 // x16 = 2.4k schemas x 12 arrangements
 	arr := 12
 	if !x.Quick() {
-		n, arr = 1900, 40
+		n, arr = 2500, 40
 	}
 	r := x.Rand(uint64(x.Shard))
 	rn := &model.Renderer{}
